@@ -296,7 +296,10 @@ def compare_outputs(scripts, impl_out, lean_out, impl_name, normalize=None, orac
                     if not exp(model):
                         res.append(Mismatch("model-vs-spec", sc, i, impl, model, "<oracle predicate>", impl_name))
                         break
-                    continue   # a predicate oracle replaces the equality comparison for this op
+                    # a predicate oracle is an additional requirement: the equality comparisons below still apply,
+                    # unless the generator marks it as the only requirement (ops the Lean driver has no model for)
+                    if getattr(exp, "replaces_equality", False):
+                        continue
                 elif exp is not None:
                     spec = exp
             if impl == "unsupported":
